@@ -153,7 +153,11 @@ static RunResult run_both(Plan const& plan, char const*& which) {
 		which = g_secondary->name;
 		return r2;
 	}
-	if(r2.hash_obs != r.hash_obs) {
+	bool faulted = false;
+	for(auto const& o : plan.ops) faulted |= o.fk != F_NONE;
+	// with an armed fault the k-th eligible event may legitimately fall into different places (e.g. decay() copies
+	// twice when the default allocator of the pointer type differs from the array's): only fault-free plans are compared
+	if(!faulted && r2.hash_obs != r.hash_obs) {
 		which       = g_secondary->name;
 		r2.violated = true;
 		r2.inv      = "DIFF-raw-vs-fancy";
